@@ -128,7 +128,6 @@ Definition explained (W : world) (v : value) (o : obs) (clause : bool) : bool :=
   negb (failed o && negb (roundtrip W v) && negb clause).
 Definition class_array (c : ccase) : bool := let '(W, v, o) := c in explained W v o (g_array W v).
 Definition class_imports (c : ccase) : bool := let '(W, v, o) := c in explained W v o (g_imports W v).
-Definition class_raw_qname (c : ccase) : bool := let '(W, v, o) := c in explained W v o (g_raw W v).
 Definition class_init (c : ccase) : bool := let '(W, v, o) := c in explained W v o (g_init W v).
 Definition class_std (c : ccase) : bool := let '(W, v, o) := c in explained W v o (g_std W v).
 
